@@ -96,9 +96,26 @@ def extract(repo):
     else:
         raise ValueError(f"EntNode::lastSmaller: unknown loop condition {cond!r}")
 
+    # --- the reset() family (ComplexList::matches ends with head->reset(); ents->unmarkAll())
+    ml = _strip(open(os.path.join(repo, "src/clstepcore/multlist.cc")).read())
+    norm = lambda t: re.sub(r"\s+", "", t)
+    mrb = norm(_func_body(ml, r"void\s+MultList::reset\s*\(\s*\)\s*(?=\{)"))
+    mult_ok = mrb in ("EntList*child;viable=UNKNOWN;for(child=childList;child;child=child->next){child->reset();}",
+                      "viable=UNKNOWN;for(EntList*child=childList;child;child=child->next){child->reset();}")
+    if not mult_ok and ("return" not in mrb and "if(" not in mrb):
+        raise ValueError(f"MultList::reset: unknown shape {mrb!r}")
+    simple_ok = re.search(r"voidreset\(\)\{viable=UNKNOWN;I_marked=NOMARK;\}", norm(h)) is not None
+    or_ok = re.search(r"choiceCount=\d+;MultList::reset\(\);\}", norm(h)) is not None
+    cl = _strip(open(os.path.join(repo, "src/clstepcore/complexlist.cc")).read())
+    mb = norm(_func_body(cl, r"bool\s+ComplexList::matches\s*\(\s*EntNode\s*\*\s*\w+\s*\)\s*(?=\{)"))
+    tail_ok = re.search(r"head->reset\(\);(?:\w+->setfirst\([^)]*\);)?\w+->unmarkAll\(\);return\w+;$", mb) is not None
+    if not tail_ok and "head->reset()" not in mb:
+        raise ValueError("ComplexList::matches: reset()/unmarkAll() tail not found")
+    reset_full = mult_ok and simple_ok and or_ok and tail_ok
+
     def lst(xs):
         return "[" + ", ".join(f'"{x}"' for x in xs) + "]"
-    out = f"""-- GENERATED by tools/extract.d/c08_complex.py from include/clstepcore/complexSupport.h, src/clstepcore/trynext.cc and src/clstepcore/entnode.cc
+    out = f"""-- GENERATED by tools/extract.d/c08_complex.py from include/clstepcore/complexSupport.h, src/clstepcore/trynext.cc, multlist.cc, complexlist.cc and entnode.cc
 namespace StepModel.Generated
 
 /-- `#define LISTEND` -/
@@ -121,6 +138,10 @@ def tryNextNullSafe : Bool := {"true" if safe else "false"}
 /-- `EntNode::lastSmaller` walks while the next node is not smaller than the previous and not greater than the bound
 (true), or strictly greater / strictly smaller (false: equal names, possible after renaming, end the walk early) -/
 def sortNonStrict : Bool := {"true" if sort_nonstrict else "false"}
+/-- `ComplexList::matches` ends with `head->reset(); ents->unmarkAll();`, `MultList::reset` sets `viable = UNKNOWN` and
+resets every child unconditionally, `SimpleList::reset` clears `viable` and `I_marked`, `OrList::reset` its three
+counters and then the `MultList` part (src/clstepcore/multlist.cc, complexlist.cc, complexSupport.h) -/
+def resetIsFull : Bool := {"true" if reset_full else "false"}
 
 end StepModel.Generated
 """
